@@ -9,6 +9,7 @@ import (
 var propRunners = map[string]func(c *Checker){
 	"C01": runC01,
 	"C04": runC04,
+	"C05": runC05,
 	"C06": runC06,
 	"C07": runC07,
 	"C11": runC11,
